@@ -30,6 +30,7 @@ func init() {
 			{ID: "R14i", Floor: 8, Doc: "a section is read into a buffer sized by its own decoded length (= R01b)", Run: ruleR01b},
 			{ID: "R14j", Floor: 4, Doc: "every byte the block reader consumes goes through the audited adapters, which keep the CARv2 payload bound (= R03o)", Run: ruleR03o},
 			{ID: "R14k", Floor: 1, Doc: "SkipNext decodes the section's CID under the bound Next reads it under — the section length: the LimitReader handed to CidFromReader is limited by exactly the decoded section size, not by an unrelated option", Run: ruleR14k},
+			{ID: "R14l", Floor: 1, Doc: "no state update is made on a by-value copy: a library function that copies *p (its receiver or a pointer parameter) into a local, assigns fields of the copy and drops it has updated nothing (a position advanced on a copy of the reader)", Run: ruleR14l},
 		},
 	})
 }
@@ -158,6 +159,10 @@ func offsetStores(fn *ssa.Function) []*ssa.Store {
 	eachInstr(fn, func(in ssa.Instruction) {
 		if st, ok := in.(*ssa.Store); ok {
 			if fa, ok := st.Addr.(*ssa.FieldAddr); ok && fieldAddrIs(fa, modV2, "BlockReader", "offset") {
+				// the reader's own field, not that of a by-value copy of the reader
+				if al, isAlloc := fa.X.(*ssa.Alloc); isAlloc && !al.Heap {
+					return
+				}
 				out = append(out, st)
 			}
 		}
